@@ -808,7 +808,7 @@ func (m *mcpModel) pathOrigins(v ssa.Value, fn *ssa.Function, res map[*ssa.Funct
 		return
 	}
 	seen[v] = true
-	if depth > 12 {
+	if depth > 32 {
 		out.addBad("provenance too deep at " + shortVal(v))
 		return
 	}
